@@ -218,3 +218,31 @@ Example datetime_roundtrip_example :
   wf_dt d = true /\
   parse_datetime (print_datetime d ++ [SP; 120]) = Some (d, print_datetime d, [SP; 120]).
 Proof. vm_compute. split; reflexivity. Qed.
+
+(* the PARSED object: bytes() is dquote + the string value + dquote (the value
+   as cached, without re-escaping).  It parses back to the same date-time
+   provided the value holds no dquote or backslash. *)
+Definition qsafe (c : N) : bool := negb (c =? DQUOTE) && negb (c =? BSLASH).
+
+Lemma escape_qsafe s : forallb qsafe s = true -> escape_quoted s = s.
+Proof.
+  induction s as [|c s IH]; [reflexivity|]. cbn [forallb escape_quoted]. intro H.
+  apply andb_true_iff in H as [Hc Hs]. unfold qsafe in Hc.
+  apply andb_true_iff in Hc as [H1 H2]. apply negb_true_iff in H1. apply negb_true_iff in H2.
+  rewrite H1, H2, (IH Hs). reflexivity.
+Qed.
+
+Theorem parsed_datetime_reserialise_partial b d raw rest :
+  parse_datetime b = Some (d, raw, rest) ->
+  (exists s, raw = DQUOTE :: s ++ [DQUOTE] /\
+     (forallb qsafe s = true ->
+      forall k rest', parse_datetime (repeat SP k ++ raw ++ rest') = Some (d, raw, rest'))).
+Proof.
+  unfold parse_datetime at 1. destruct (parse_quoted b) as [[[s raw0] rest0]|] eqn:Eq; [|discriminate].
+  destruct (parse_dt_str s) as [d0|] eqn:Ed; [|discriminate]. intro H. inversion H; subst.
+  exists s. split; [reflexivity|]. intros Hs k rest'.
+  destruct (parse_quoted_spec _ _ _ _ Eq) as (_ & Hn & _).
+  pose proof (quoted_roundtrip s k rest' Hn) as Q. unfold print_quoted in Q.
+  rewrite (escape_qsafe s Hs) in Q. unfold parse_datetime.
+  cbn [app] in Q |- *. rewrite Q, Ed. reflexivity.
+Qed.
